@@ -338,7 +338,15 @@ func (l *Linter) lintRestartStatement(stmt *ast.RestartStatement, ctx *context.C
 }
 
 func (l *Linter) lintEsiStatement(stmt *ast.EsiStatement, ctx *context.Context) types.Type {
-	// Nothing to lint because this statement is simply esi; and enabled in all subroutines.
+	// esi statement takes effect in FETCH only (the simulator rejects it anywhere else)
+	// https://developer.fastly.com/reference/vcl/statements/esi/
+	if ctx.Mode()&^context.FETCH != 0 {
+		l.Error(&LintError{
+			Severity: ERROR,
+			Token:    stmt.GetMeta().Token,
+			Message:  "esi statement is available in FETCH scope only",
+		})
+	}
 	return types.NeverType
 }
 
